@@ -722,9 +722,25 @@ def AnyBox.nx : AnyBox → Int
   | .lin g => g.nx
   | .gcp g => g.nx
 
-/-- `GeoboxTiles.__init__(box, tile_shape)` -/
+/-- last element of an offsets array (`offsets[-1]`; the arrays `VTiles.mk'` builds always begin
+with `0`, the empty case is not reachable through the constructors) -/
+def lastOff : List Int → Int
+  | [] => 0
+  | [a] => a
+  | _ :: b :: t => lastOff (b :: t)
+
+/-- `tiles.base` (roi.py:183, 291): the base shape of a regular tiling, the last offsets of a
+variable one -/
+def AnyTiles.base : AnyTiles → Int × Int
+  | .reg t => (t.baseY, t.baseX)
+  | .var t => (lastOff t.offY, lastOff t.offX)
+
+/-- `GeoboxTiles.__init__(box, tile_shape)` after `fix: GeoboxTiles refuses chunk tuples that
+do not add up to the GeoBox shape`: `if self._tiles.base != box.shape: raise ValueError` -/
 def GBTiles.mk' (g : AnyBox) (how : How) : Res GBTiles :=
-  (roiTiles g.ny g.nx how).map (fun t => ⟨g, t⟩)
+  match roiTiles g.ny g.nx how with
+  | .error e => .error e
+  | .ok t => if t.base = (g.ny, g.nx) then .ok ⟨g, t⟩ else .error .valueError
 
 def AnyTiles.tokenTailLegacy : AnyTiles → Token
   | .reg a => a.tokenLegacy.drop 1
